@@ -333,6 +333,11 @@ def run(ctx):
         if off:
             traces += run_scenarios(off, st, tmo, ctx.seed, streaming=False)
             metas += off
+    # thread-pool server: a connection ends and the next one arrives while the worker is handing itself back (each of the
+    # worker's steps in turn is where it is held back)
+    for tr, m in L.handover_traces(ctx):
+        traces.append(tr)
+        metas.append(dict(m, ending="orderly+next-arrives", server="thread", hookraise=False, handover=True))
     for m in metas:
         ctx.count(json.dumps(m, sort_keys=True))
     for i in (0, len(traces) // 2, len(traces) - 1):
@@ -344,6 +349,8 @@ def run(ctx):
         v13 = v.split("|")[1]
         if tr[-1].get("hang"):
             v13 = v13 or "C13.Hang"
+        if m.get("handover") and not v13 and not (tr[-1]["witness_ok"] and tr[-1]["fresh_ok"]):
+            v13 = "C13.SlotNotReleased"     # the connection that was handed to the worker that was just leaving was never served
         if v13:
             ctx.violation("%s [ending=%s server=%s%s]" % (v13, m["ending"], m["server"], (" hookraise" if m["hookraise"] else "") + (" resraise" if m.get("resraise") else "") + (" stream" if m.get("stream") else "") + (" streaming-off" if m.get("streaming") is False else "")),
                           {"scenario": m, "trace": tr})
@@ -359,6 +366,10 @@ def replay(ctx, path):
     bad = 0
     for case in rep["cases"]:
         m = case["scenario"]
+        if m.get("handover"):
+            print("replay of hand-over schedules: rerun the check (the schedules are re-explored)")
+            bad += 1
+            continue
         tr = run_scenarios([m], m["server"], m["timeout"], ctx.seed, streaming=m.get("streaming", True))[0]
         v, _ = tlc.validate(ctx, "Trace_Daemon", [tr], cfg="Trace_Daemon.cfg")
         print("replay:", m, "->", v[0].split("|")[1] or "accepted")
